@@ -136,6 +136,7 @@ def run(ctx, rep):
             if t[0] != "ok" or int(t[1]) != no or int(t[2]) != cl or int(t[3]) != nc:
                 rep.disagree(f"model (needsOpt, #consts, base calls) = {t[1:4]} vs code {(no, cl, nc)}", {"line": line, **case})
     refit(ctx, rep)
+    scripted_refit(ctx, rep)
 
 
 def sequences(ctx, rep):
@@ -247,6 +248,59 @@ def refit(ctx, rep):
                 want = float(ref(ag.copy()))
         if not same(final, want) and not (math.isfinite(want) and abs(final - want) <= 1e-12 * max(1, abs(want))):
             rep.violate(f"stored fitness {final} does not belong to the stored constants (base fitness {want})", "C06:refit-mismatch", case)
+
+
+def scripted_refit(ctx, rep):
+    """`EquationRegressor.fit` with a SCRIPTED local optimizer (attempt k leaves the constants (k,) and reports a prescribed
+    fitness, NaN / inf / ties included) against the model `LocalOpt.refit`, and the NaN-aware reading of "never worse than
+    the first fit" (theorem C06.refit_first_finite) checked directly on the real object"""
+    from bingo.symbolic_regression.equation_regressor import EquationRegressor
+    from harness.keys import key_to_float, float_to_key, random_key, kstr
+    rng = ctx.rng
+    lines, meta = [], []
+    for t in range(ctx.n(300, 4000)):
+        n = rng.randrange(1, 6)
+        keys = [random_key(rng, nan_prob=rng.choice([0.0, 0.2, 0.5])) for _ in range(n)]
+        vals = [key_to_float(k) for k in keys]
+        ag = AGraph()
+        ag.command_array = np.array([[0, 0, 0], [1, -1, -1], [2, 0, 1]], dtype=int)      # X_0 + C
+        ag.get_number_local_optimization_params()
+        reg = EquationRegressor(ag, fit_retries=n - 1)
+        calls = {"k": 0}
+
+        def fit_func(eq, _v=vals, _c=calls):
+            k = _c["k"]
+            _c["k"] += 1
+            eq.set_local_optimization_params((float(k),))
+            return _v[k]
+        reg._get_local_opt = lambda X, Y: fit_func
+        case = {"script": [kstr(k) for k in keys]}
+        try:
+            reg.fit(np.zeros((2, 1)), np.zeros((2, 1)))
+        except Exception as exc:
+            rep.disagree(f"scripted EquationRegressor.fit raised {type(exc).__name__}: {exc}", case)
+            continue
+        got_f = float_to_key(float(ag.fitness)) if ag.fitness is not None else "none"
+        got_c = [int(c) for c in ag.constants]
+        rep.case(("scripted-refit", tuple(case["script"])), n > 1)
+        rep.count("scripted_refit", f"attempts={n}")
+        # direct oracle (NaN-aware): a first fit that is a number is never replaced by a NaN or by a larger number, and the
+        # stored constants are those of the attempt whose fitness is stored
+        first = keys[0]
+        if first != "nan" and (got_f == "nan" or got_f > first):
+            rep.violate(f"re-fitting ended with fitness {got_f} although the first fit gave {first}", "C06:refit-worse", case)
+        if got_f != "nan" and (len(got_c) != 1 or not (0 <= got_c[0] < n) or keys[got_c[0]] != got_f):
+            rep.violate(f"stored fitness {got_f} does not belong to the stored constants {got_c}", "C06:refit-mismatch", case)
+        if ctx.driver_ok:
+            lines.append("refit ; " + " ".join(kstr(k) for k in keys))
+            meta.append((case, got_f, got_c, ag.needs_local_optimization()))
+    if ctx.driver_ok and lines:
+        outs = run_driver(lines)
+        rep.corr_cases += len(lines)
+        for line, o, (case, got_f, got_c, needs) in zip(lines, outs, meta):
+            want = f"ok {kstr(got_f)} ; {' '.join(map(str, got_c))} ; {1 if needs else 0}"
+            if " ".join(o.split()) != " ".join(want.split()):
+                rep.disagree(f"EquationRegressor.fit: model {o!r} vs code {want!r}", case)
 
 
 def replay(ctx, rep, rp):
